@@ -393,9 +393,11 @@ def check_c14(idx: Index, tier: str, res: Result) -> None:
     installs = [n for n in walk_no_nested(dele.node) if isinstance(n, ast.Assign) and isinstance(n.targets[0], ast.Subscript)
                 and dotted(n.targets[0].value) == "self.agent_type_map"]
     installed_names = {n.value.id for n in installs if isinstance(n.value, ast.Name)}
+    _rows = row_aliases(dele.node, "self.agent_type_map")
     rebuild = [c for c in iter_calls(dele.node) if call_name(c) == "append" and (
         (isinstance(c.func.value, ast.Subscript) and dotted(c.func.value.value) == "self.agent_type_map") or
-        (isinstance(c.func.value, ast.Name) and c.func.value.id in installed_names))]
+        (isinstance(c.func.value, ast.Name) and c.func.value.id in installed_names) or
+        is_row(_rows, c.func.value, "self.agent_type_map"))]
     comps = [n.value for n in installs if isinstance(n.value, ast.ListComp)]
     ok = (bool(rebuild) or bool(comps)) and all(isinstance(c.args[0], ast.Attribute) and c.args[0].attr == "id" for c in rebuild) \
         and all(isinstance(c.elt, ast.Attribute) and c.elt.attr == "id" for c in comps)
@@ -713,8 +715,11 @@ def check_c11(idx: Index, tier: str, res: Result) -> None:
     cfg = build_cfg(hev.node, hev.qual)
     drains = set()
     for nd in cfg.nodes:
-        if nd.kind == "test" and "self.events" in src(nd.ast) and isinstance(nd.ast, ast.Compare):
-            drains.add(nd.id)
+        # while len(self.events) > 0: / while self.events:  - the false edge is "the inbox is empty"
+        if nd.kind == "test" and "self.events" in src(nd.ast) and (isinstance(nd.ast, ast.Compare) or dotted(nd.ast) == "self.events"
+                                                                  or (isinstance(nd.ast, ast.Call) and call_name(nd.ast) == "len")):
+            if not (isinstance(nd.ast, ast.Compare) and isinstance(nd.ast.ops[0], (ast.Eq, ast.LtE, ast.Lt, ast.Is, ast.In, ast.NotIn))):
+                drains.add(nd.id)
 
     def trd(node: Node, fact, label):
         if node.id in drains and label == "false":
@@ -770,7 +775,17 @@ def _id_index_of(t: ast.AST, assigns: Dict[str, List[ast.AST]]) -> Optional[ast.
         return None
     if not isinstance(base, ast.Name):
         return None
-    vals = assigns.get(base.id, [])
+    # `idx = None` ... `if idx is None: idx = {...}`: built when first needed
+    # ... or `idx = {...} if <there is something to deliver> else None`
+    vals = []
+    for v in assigns.get(base.id, []):
+        stack = [v]
+        while stack:
+            x = stack.pop()
+            if isinstance(x, ast.IfExp):
+                stack += [x.body, x.orelse]
+            elif not (isinstance(x, ast.Constant) and x.value is None):
+                vals.append(x)
     if len(vals) != 1 or not isinstance(vals[0], ast.DictComp):
         return None
     dc = vals[0]
@@ -945,7 +960,12 @@ def check_c12(idx: Index, tier: str, res: Result) -> None:
               run.loc(outer), run.qual, src(outer.iter),
               "the round loop's upper bound is %s; the stop time itself must be executed (stoptime + 1)" % src(o_hi),
               key="LOOPS/run/outer-upper")
-    res.check("LOOPS", "steps per round = round(1/dt)", _nfeq(_strip_int_deep(i_hi), "round(1 / %s.dt)" % m) and _nfeq(i_lo, "0") and len(ia) <= 2,
+    # the bound may be handed out by a helper that remembers it per dt (a validated memo): every way it is produced is the formula
+    from ..util import value_alternatives
+    _cls = idx.cls(SIMSCHED, "SimultaneousScheduler").node
+    i_alts = value_alternatives(_cls, run.node, i_hi)
+    res.check("LOOPS", "steps per round = round(1/dt)", bool(i_alts) and all(_nfeq(_strip_int_deep(a_), "round(1 / %s.dt)" % m) for a_ in i_alts)
+              and _nfeq(i_lo, "0") and len(ia) <= 2,
               run.loc(inner), run.qual, src(inner.iter),
               "the step loop is %s; a round has exactly round(1/dt) steps starting at 0" % src(inner.iter), key="LOOPS/run/inner")
     # exactly one run_step per inner iteration on the running path, wired to the loop variables
@@ -974,7 +994,7 @@ def check_c12(idx: Index, tier: str, res: Result) -> None:
     # INTKIND
     fw = _float_writers(idx, MODEL, "Model", {"starttime", "stoptime"})
     for arg in list(outer.iter.args) + list(inner.iter.args):
-        ok = _int_kinded(arg, set(fw))
+        ok = all(_int_kinded(a_, set(fw)) for a_ in value_alternatives(_cls, run.node, arg))
         res.check("INTKIND", "range argument %s is integer-kinded" % src(arg), ok, run.loc(arg), run.qual, src(arg),
                   "range() receives %s un-coerced while %s stores a float into it: TypeError unless run_specs()/configure() "
                   "overwrote it with an int" % (src(arg), "; ".join(sum(fw.values(), []))[:160]),
@@ -1494,10 +1514,11 @@ def check_c13(idx: Index, tier: str, res: Result) -> None:
     res.floor("collect_agent_statistics call sites", ncol, 1)
     # --- reader/writer keys
     hr = idx.func(HYBRID, "HybridRunner.run_scenario")
-    sets = [n for n in ast.walk(hr.node) if isinstance(n, ast.Call) and call_name(n) == "set" and n.args and isinstance(n.args[0], (ast.List, ast.Tuple, ast.Set))]
+    sets = [n.args[0] for n in ast.walk(hr.node) if isinstance(n, ast.Call) and call_name(n) == "set" and n.args and isinstance(n.args[0], (ast.List, ast.Tuple, ast.Set))]
+    sets += [n for n in ast.walk(hr.node) if isinstance(n, ast.Set) and not any(n is s0 for s0 in sets)]       # {"mean", ...}: the literal form
     expected = set()
     for s_ in sets:
-        expected |= {const_str(e) for e in s_.args[0].elts}
+        expected |= {const_str(e) for e in s_.elts}
     written = {"count"} | set(bykey)
     res.check("KEYS", "aggregate types requested by default are written", bool(expected) and expected <= written, hr.loc(), hr.qual,
               str(sorted(x for x in expected if x)), "HybridRunner asks for aggregate types %s that the collector does not write (%s)"
@@ -1524,7 +1545,8 @@ def check_c13(idx: Index, tier: str, res: Result) -> None:
         if isinstance(n, ast.Assign) and isinstance(n.targets[0], ast.Subscript) and isinstance(n.targets[0].slice, ast.Name) \
                 and n.targets[0].slice.id == "property_type":
             nbr += 1
-            res.check("KEYS", "aggregate stored under its own type and read from that type's column", "property_type" in src(n.value), hr.loc(n), hr.qual,
+            from ..util import _written_out
+            res.check("KEYS", "aggregate stored under its own type and read from that type's column", "property_type" in src(_written_out(hr.node, n.value)), hr.loc(n), hr.qual,
                       norm_stmt(n)[-120:], "the aggregate stored under [property_type] is filled from %s, which does not depend on the type" % src(n.value)[-80:],
                       key="KEYS/run_scenario/generic-column")
     res.floor("aggregate stores in HybridRunner.run_scenario", nbr, 1)        # one per result format, or one shared by the formats
